@@ -1076,8 +1076,8 @@ impl<'de, R: Read<'de>> Deserializer<R> {
             }
             Some(b',') => {
                 self.eat_char();
-                match self.parse_whitespace() {
-                    Ok(Some(b']')) => Err(self.peek_error(ErrorCode::TrailingComma)),
+                match tri!(self.parse_whitespace()) {
+                    Some(b']') => Err(self.peek_error(ErrorCode::TrailingComma)),
                     _ => Err(self.peek_error(ErrorCode::TrailingCharacters)),
                 }
             }
